@@ -273,6 +273,8 @@ type Driver struct {
 	Post func(c *Ctx)
 	// ReplayIn names the flavour whose binary must execute replays (e.g. "sched").
 	ReplayIn string
+	// ReplayInIf, when set, restricts ReplayIn to the replay files for which it returns true.
+	ReplayInIf func(raw []byte) bool
 	// Crash turns the breadcrumb of a worker that died into a finding (nil: machinery error).
 	Crash func(crumb []byte, stderrTail string) *Finding
 }
@@ -313,7 +315,12 @@ func Main(flavour string) {
 	}
 	seed := envInt("VERIF_SEED", 1)
 	if len(os.Args) >= 4 && os.Args[2] == "-replay" {
-		if d.ReplayIn != "" && d.ReplayIn != flavour {
+		needAlt := d.ReplayIn != "" && d.ReplayIn != flavour
+		if needAlt && d.ReplayInIf != nil {
+			raw, _ := os.ReadFile(os.Args[3])
+			needAlt = d.ReplayInIf(raw)
+		}
+		if needAlt {
 			bin := os.Getenv("VERIF_BIN_" + strings.ToUpper(d.ReplayIn))
 			cmd := exec.Command(bin, os.Args[1:]...)
 			cmd.Stdout, cmd.Stderr = os.Stdout, os.Stderr
